@@ -62,7 +62,7 @@ def dump (g : G) : String :=
     | none => "~"
     | some a => hexOrDash (bytesOfStr a)
   let opts := (List.range g.opts.length).map fun i =>
-    valRepr (g.valOf i) ++ "/" ++ toString (g.setter i) ++ "/" ++ b01 (isDefault g i) ++ b01 (isOn g i) ++ b01 (isUsed g i)
+    (if (g.opt i).type == 0 then (if (g.valOf i).isNull then "~" else "1") else valRepr (g.valOf i)) ++ "/" ++ toString (g.setter i) ++ "/" ++ b01 (isDefault g i) ++ b01 (isOn g i) ++ b01 (isUsed g i)
       ++ "/" ++ typed g i
   "ok argn=" ++ toString n ++ " args=" ++ ",".intercalate args ++ " opts=" ++ ";".intercalate opts
 
